@@ -42,8 +42,7 @@ class AigerBinSectionsUnit(AigerSectionsUnit):
         "from_boxed_dyn_read": "constructor: builds the DeferredReader / LineReader, then calls `new`",
         "new": "translated by the unit aigernew_binary (Props/TieAigerNew)",
         "header": "accessor returning a reference to the field `header`",
-        "parse": "whole-file driver: pushes every item onto the vectors of `OrderedAig<L>` (Vec, nested indexing, "
-                 "`into_owned_name`, `to_owned`); tied to `Aiger.parseBinary` by the correspondence runs",
+        "parse": "whole-file driver: translated by the unit aigerbinparse (Props/TieAigerParse `parse_bin_tied`)",
     }
     fields = dict(AigerSectionsUnit.fields)
     fields["code"] = dict(lean="p.code", ty="usize")
